@@ -200,12 +200,23 @@ def _reference_bytes(workdir):
     return name, data
 
 
-def run_scenario(rng, workdir, name, good, sid):
+# directed schedules (start offset, time spent inside the wrapped function, failure) per process: a failing / killed first
+# executor with a second caller already blocked on the lock and a third arriving while the second computes; several waiters
+DIRECTED = [
+    [(0, .12, 'raise'), (.03, .12, None), (.2, 0, None)],
+    [(0, .12, 'kill_compute'), (.03, .12, None), (.2, 0, None)],
+    [(0, .10, 'raise'), (.03, .10, 'raise'), (.16, .05, None)],
+    [(0, .10, None), (.03, 0, None), (.05, 0, None)],
+    [(0, .10, 'raise'), (.03, .10, None), (.05, 0, None)],
+]
+
+
+def run_scenario(rng, workdir, name, good, sid, script=None):
     """one real multi-process scenario; returns trace dict"""
     cachedir = os.path.join(workdir, 's{}'.format(sid))
     shutil.rmtree(cachedir, ignore_errors=True)
     os.makedirs(cachedir)
-    init = rng.choice(['absent', 'absent', 'empty', 'prefix', 'complete', 'garbage'])
+    init = rng.choice(['absent', 'absent', 'empty', 'prefix', 'complete', 'garbage']) if script is None else rng.choice(['absent', 'empty'])
     path = os.path.join(cachedir, name)
     if init == 'empty':
         open(path, 'wb').close()
@@ -218,18 +229,19 @@ def run_scenario(rng, workdir, name, good, sid):
         open(path, 'wb').write(rng.choice([b'\x00' * 50, b'garbage!', b'\x00' * 5000]))
     evpath = os.path.join(cachedir + '.events')
     fd = os.open(evpath, os.O_WRONLY | os.O_CREAT | os.O_TRUNC | os.O_APPEND)
-    nprocs = rng.choice([2, 2, 3])
-    fails = [rng.choice([None, None, None, 'raise', 'kill_compute', 'kill_dump', 'kill_timer']) for _ in range(nprocs)]
+    nprocs = rng.choice([2, 2, 3]) if script is None else len(script)
+    fails = [rng.choice([None, None, None, 'raise', 'kill_compute', 'kill_dump', 'kill_timer']) for _ in range(nprocs)] if script is None else [f for _, _, f in script]
     start_at = time.time() + 0.02
     pids = {}
     timers = {}
     for p in range(1, nprocs + 1):
-        sleep = rng.choice([0, 0.001, 0.005, 0.02])
+        sleep = rng.choice([0, 0.001, 0.005, 0.02]) if script is None else script[p - 1][1]
         fail = fails[p - 1]
+        offset = rng.choice([0, 0, 0.001, 0.004]) if script is None else script[p - 1][0]
         pid = os.fork()
         if pid == 0:
             try:
-                _child_call(fd, p, cachedir, sleep, None if fail == 'kill_timer' else fail, start_at + rng.choice([0, 0, 0.001, 0.004]))
+                _child_call(fd, p, cachedir, sleep, None if fail == 'kill_timer' else fail, start_at + offset)
             finally:
                 os._exit(3)
         pids[pid] = p
@@ -350,8 +362,14 @@ def prefix_sweep(rep, workdir, name, good, rng, tier):
         # afterwards the file must be loadable: a second call loads
         before = _ncalls[0]
         lg2 = EvLog(os.open(os.devnull, os.O_WRONLY), 0)
-        with treelog.set(lg2), cache.enable(d):
-            v2 = f(3)
+        try:
+            with treelog.set(lg2), cache.enable(d):
+                v2 = f(3)
+        except BaseException as e:
+            os.close(lg2.fd)
+            rep.violation('fn:{}:not-recovered:{}'.format(kind, type(e).__name__), 'the call after a crash-free call on file state {} k={} raised {!r}: the entry is poisoned'.format(kind, k, e),
+                          dict(kind=kind, k=k, exc=repr(e)))
+            continue
         os.close(lg2.fd)
         if _ncalls[0] != before or not _same(v2, _payload(3)) or lg2.infos != EXPECTED_INFOS:
             rep.violation('fn:{}:not-recovered'.format(kind), 'after a crash-free call the entry is not served from cache / wrong', dict(kind=kind, k=k))
@@ -419,6 +437,8 @@ def run(rep):
     for sid in range(nscen):
         t = run_scenario(rng, WORKROOT, name, good, sid)
         traces.append(t)
+    for k, script in enumerate(DIRECTED * (1 if tier == 'quick' else 4)):
+        traces.append(run_scenario(rng, WORKROOT, name, good, nscen + k, script=script))
     rejected, res = validate_fn_traces(rep, traces)
     for tid, why in rejected.items():
         t = traces[tid - 1] if tid else None
